@@ -28,6 +28,19 @@ def scenarios(tier, rng):
             out.append(h2.Scenario([("t.rs", t.encode("utf-8"))], "check", structured=structured, name="tricky"))
         out.append(h2.Scenario([("ok.rs", wrap_fn([stmt(msg="a", ref=1)]).encode()), ("bad.rs", b"\xff info!(\"x\");")],
                                "check", structured=structured, name="unreadable"))
+        # an unreadable file at every place of the walk order among files that need references, with and
+        # without a lock (the first pass runs only without one)
+        names = ["a0.rs", "b1.rs", "m/c2.rs", "m/d3.rs", "z4.rs"]
+        for bad in range(len(names)):
+            for lock in (None, scen.lock_bytes(50)):
+                fs = []
+                for i, nme in enumerate(names):
+                    if i == bad:
+                        fs.append((nme, b"// caf\xe9\nfn f() { info!(\"latin-1\"); }\n"))
+                    else:
+                        fs.append((nme, wrap_fn([stmt(msg="m%d" % i), stmt(msg="n%d" % i, ref=(i + 1) if not structured else None,
+                                                                            kvref=None if not structured else str(i + 1))]).encode()))
+                out.append(h2.Scenario(fs, "check", structured=structured, lock=lock, name="unreadable-among"))
     return out
 
 
